@@ -6,8 +6,8 @@
      h <local> <local_dc> LAYOUT <nsteps> { <level> <total_nodes> HINT }*
      a <local> <local_dc> <nops> { s LAYOUT | g <level> HINT | x <level> }*
      LAYOUT = <ndcs> { <name> <nnodes> <addr>* }*          (ascending names, a BTreeMap)
-     HINT   = e | p | <k> <addr>*k
-   A HINT is what the implementation answered on that step (e = NotEnoughNodes, p = panic).
+     HINT   = - | ! | <k> <addr>*k
+   A HINT is what the implementation answered on that step (- = NotEnoughNodes, ! = panic).
    It is used only to resolve the model's one nondeterministic input, the result of
    rand's choose_multiple: among all choices allowed by [choice_okb] the driver searches
    (depth first over the whole history, because a choice also moves cursors) for one under
@@ -51,8 +51,8 @@ let parse_layout () : (n * n list) list =
 
 let parse_hint () : hint =
   match next () with
-  | "e" -> HErr
-  | "p" -> HPanic
+  | "-" -> HErr
+  | "!" -> HPanic
   | k -> HOk (times (int_of_string ("0x" ^ k)) (fun () -> n (next ())))
 
 let matches hint res =
